@@ -34,6 +34,15 @@ SOURCES = [
     # module-level variables named like the parameters / locals of the other sources, and the other way round
     ("globals-named-like-locals", "int a;\nfloat x;\nint t;\nint i;\nint v;\nfloat3 w;\nfloat3 r;\nexport function f(int q) -> int { a = q; t = a + 1; i = t; v = i; x = 0.5; return t + v; }\n"),
     ("locals-named-like-globals", "export function f(int g0, float gs) -> float { int ga = g0 + 1; float n = gs; return ga + n; }\n"),
+    # parameters without a name (placeholder names), twice, in different positions
+    ("unnamed-parameters", "function g(float x, int) -> float { return x * 2.0; }\nfunction h(int, float, int q) -> int { return q + 1; }\nexport function f(int a, float x) -> float { return g(x, a) + h(a, x, a); }\n"),
+    ("unnamed-parameter-first", "function g(int, float y) -> float { return y + 0.5; }\nexport function f(int a, float x) -> float { return g(a, x); }\n"),
+    # rejected by each of the validation passes that follow typing
+    ("rejected-bounds", "export function f(int a) -> int { int[2] t; t[5] = a; return t[0]; }\n"),
+    ("rejected-swizzle", "export function f(float2 v) -> float { return v.z; }\n"),
+    ("rejected-flow", "export function f(int a) -> int { break; return a; }\n"),
+    ("rejected-index-type", "export function f(int a, float x) -> int { int[2] t; return t[x + 0.5]; }\n"),
+    ("rejected-redeclaration", "export function f(int a) -> int { int a = 2; return a; }\n"),
     ("rejected-typing", "export function f(int a, float2 v) -> int { return a + v; }\n"),
     ("fails-lowering", "function g(int a) -> int;\nexport function f(int a) -> int { return a; }\n"),
 ]
